@@ -272,10 +272,14 @@ fn main() {
     let real = a.u64("real", 0);
     // back end: 0 = whatever the CPU detection picks, 1..5 = SSE2, SSSE3, SSE4.1, AVX, AVX2 (hook H1)
     let level = a.u64("level", 0) as u8;
-    #[cfg(cryptocorrosion_verif)]
+    #[cfg(all(cryptocorrosion_verif, not(feature = "no_simd")))]
     ppv_lite86::x86_64::verif::set_level(level);
+    #[cfg(feature = "no_simd")]
+    let _ = level;
     // reduced: every 4th length of the sweep (plus the padding boundaries), fewer hook states
-    let reduced = a.str("streams", "all") == "reduced";
+    // tiny: every 8th length plus the padding boundaries, no multi-update / long streams, one hook state per boundary
+    let tiny = a.str("streams", "all") == "tiny";
+    let reduced = a.str("streams", "all") == "reduced" || tiny;
     let mut rng = Rng::new(seed ^ 0xb1a4e);
     let mut cases: Vec<Case> = Vec::new();
     let mut direct: Vec<String> = Vec::new();
@@ -311,7 +315,8 @@ fn main() {
         let block = if v <= 256 { 64 } else { 128 };
         for len in 0..=(3 * block + 1) {
             let r = len % block;
-            if reduced && !(len % 4 == (v as usize / 32) % 4 || r <= 1 || r + 1 == block || (r + 10 >= block && r + 7 <= block) || (r + 18 >= block && r + 15 <= block)) {
+            let m = if tiny { 8 } else { 4 };
+            if reduced && !(len % m == (v as usize / 32) % m || r <= 1 || r + 1 == block || (r + 10 >= block && r + 7 <= block) || (r + 18 >= block && r + 15 <= block)) {
                 continue;
             }
             let msg = content(&mut rng, len as u64 + v as u64, len);
@@ -321,7 +326,7 @@ fn main() {
     }
     // 2. sparse longer lengths around block multiples
     let top = if thorough { 64 * 1024 } else { 4 * 1024 };
-    let per = if thorough { 60 } else { 6 };
+    let per = if tiny { 1 } else if thorough { 60 } else { 6 };
     for &v in &variants {
         let block = if v <= 256 { 64usize } else { 128 };
         for i in 0..per {
@@ -344,7 +349,7 @@ fn main() {
             for sp in 0..=total {
                 let near = sp <= 1 || sp + 1 >= total || (sp % block) <= 1 || (sp % block) + 1 >= block
                     || (total - sp) % block == 0 || sp + 9 == block || sp + 8 == block || sp + 17 == block || sp + 16 == block;
-                if thorough || near || rng.chance(1, 12) {
+                if thorough || (near && !tiny) || rng.chance(1, if tiny { 40 } else { 12 }) {
                     splits.push((total, sp));
                 }
             }
@@ -354,7 +359,7 @@ fn main() {
             cases.push(parts_case(v, &[msg[..sp].to_vec(), msg[sp..].to_vec()], false));
             n_updates += 1;
         }
-        for i in 0..(if thorough { 200 } else { 12 }) {
+        for i in 0..(if tiny { 2 } else if thorough { 200 } else { 12 }) {
             let nparts = rng.range(2, 4) as usize;
             let mut parts: Vec<Vec<u8>> = Vec::new();
             for _ in 0..nparts {
@@ -374,7 +379,7 @@ fn main() {
     }
     } // !hook_only
     // 3. hook H2: arbitrary chaining value, counter next to a word boundary, tail crossing it
-    let per_b = if thorough { 40 } else { 5 };
+    let per_b = if tiny { 2 } else if thorough { 40 } else { 5 };
     for &v in &variants {
         let (block, wbits, wb) = if v <= 256 { (64usize, 32u32, 4usize) } else { (128, 64, 8) };
         let blockbits = (block * 8) as u128;
@@ -397,13 +402,19 @@ fn main() {
                     1 => rng.below(block as u64) as usize,
                     _ => block - 1 - rng.below(20) as usize,
                 };
-                let tail_len = rng.below(3 * block as u64 + 2) as usize;
                 let back = rng.below(4) as u128; // blocks before the boundary
+                // three quarters of the tails cross the boundary (at least one block is compressed after the carry)
+                let tail_len = if j % 4 != 3 {
+                    ((back as usize + 2) * block).saturating_sub(buffered_len) + rng.below(block as u64 + 2) as usize
+                } else {
+                    rng.below(3 * block as u64 + 2) as usize
+                };
                 // counter value in bits (multiple of the block size)
                 let t: u128 = match bnd {
                     // just below the low-word carry, random high word (not all ones)
                     0 => {
-                        let hi = if j % 2 == 0 { 0 } else { rng.u128() & wmask & !(1u128 << (wbits - 1)) };
+                        // high word before the carry: 0, 1, odd, even, random (a carry into an odd word included)
+                        let hi = match j % 5 { 0 => 0, 1 => 1, 2 => (rng.u128() & wmask & !(1u128 << (wbits - 1))) | 1, 3 => (rng.u128() & wmask & !(1u128 << (wbits - 1))) & !1, _ => (rng.u128() & wmask) >> 1 };
                         ((hi + 1) << wbits).wrapping_sub(blockbits * (back + 1))
                     }
                     // low word carry with high word all ones but one: carry chain into the high word
